@@ -16,6 +16,8 @@ use ucglib::build::Val;
 pub struct C15 {
     py: Option<PyOracle>,
     ucg: Ucg,
+    /// the mode the in-process builds run in; every case is judged in both
+    strict: bool,
 }
 
 // ------------------------------------------------------------------ trees
@@ -586,7 +588,7 @@ fn b64(bytes: &[u8], url: bool) -> String {
 
 impl C15 {
     pub fn new(_tier: Tier) -> Self {
-        C15 { py: None, ucg: Ucg::new() }
+        C15 { py: None, ucg: Ucg::new(), strict: true }
     }
 
     fn py(&mut self) -> &mut PyOracle {
@@ -603,7 +605,7 @@ impl C15 {
         let dir = main.parent().unwrap().to_path_buf();
         std::fs::write(dir.join(file_name), bytes).expect("write data file");
         std::fs::write(&main, format!("let v = include {} \"./{}\";\n", typ, file_name)).expect("write main");
-        let r = self.ucg.build(&main, true);
+        let r = self.ucg.build(&main, self.strict);
         let out = match r {
             Ok(v) => match v.as_ref() {
                 Val::Tuple(fs) => match fs.iter().find(|(k, _)| k.as_ref() == "v") {
@@ -618,7 +620,41 @@ impl C15 {
         out
     }
 
+    /// the case under the default strict mode and, when that holds, once more under
+    /// `--no-strict`: the property does not depend on the mode
     fn check(&mut self, typ: &str, bytes: &[u8], want: Option<&GVal>, label: &str, nontrivial: bool) -> Outcome {
+        self.strict = true;
+        let o = self.check_mode(typ, bytes, want, label, nontrivial);
+        if o.is_fail() {
+            return o;
+        }
+        self.strict = false;
+        let mut o2 = self.check_mode(typ, bytes, want, label, nontrivial);
+        self.strict = true;
+        if o2.is_fail() {
+            o2.note_mode("with --no-strict (the strict build of the same case is fine)");
+            return o2;
+        }
+        o
+    }
+
+    fn check_raw(&mut self, typ: &str, bytes: &[u8]) -> Outcome {
+        self.strict = true;
+        let o = self.check_raw_mode(typ, bytes);
+        if o.is_fail() {
+            return o;
+        }
+        self.strict = false;
+        let mut o2 = self.check_raw_mode(typ, bytes);
+        self.strict = true;
+        if o2.is_fail() {
+            o2.note_mode("with --no-strict (the strict build of the same case is fine)");
+            return o2;
+        }
+        o
+    }
+
+    fn check_mode(&mut self, typ: &str, bytes: &[u8], want: Option<&GVal>, label: &str, nontrivial: bool) -> Outcome {
         let shown = String::from_utf8_lossy(bytes).into_owned();
         let rendered = format!("include {} <- {}", typ, clipv(&format!("{:?}", shown)));
         let mut o = Outcome::pass(rendered.clone());
@@ -704,7 +740,7 @@ impl C15 {
         o
     }
 
-    fn check_raw(&mut self, typ: &str, bytes: &[u8]) -> Outcome {
+    fn check_raw_mode(&mut self, typ: &str, bytes: &[u8]) -> Outcome {
         let shown = String::from_utf8_lossy(bytes).into_owned();
         let rendered = format!("include {} <- {} bytes {}", typ, bytes.len(), clipv(&format!("{:?}", shown)));
         let mut o = Outcome::pass(rendered.clone());
@@ -838,7 +874,7 @@ impl Property for C15 {
         "C15"
     }
     fn rule(&self) -> String {
-        "generated trees (nested containers, i64 extremes, floats, Unicode and format-significant strings, keys needing quotes) written as JSON / YAML / TOML documents by the harness's own emitters (escape forms, block/flow styles, quoted/plain/block scalars, tables/inline tables/arrays of tables, alternative number spellings) and included through a built file; truncated / corrupted variants of each document, judged by the Python decoder; arbitrary text for `include str`, arbitrary bytes for b64 / b64urlsafe; unknown include types. Non-trivial: a nested container, a non-ASCII or escaped string, an integer beyond 2^53, a corrupted variant, or (raw) empty / non-UTF-8 / non-multiple-of-3 input; distinct by (type, file bytes).".into()
+        "generated trees (nested containers, i64 extremes, floats, Unicode and format-significant strings, keys needing quotes) written as JSON / YAML / TOML documents by the harness's own emitters (escape forms, block/flow styles, quoted/plain/block scalars, tables/inline tables/arrays of tables, alternative number spellings) and included through a built file, in strict mode and again under --no-strict; truncated / corrupted variants of each document, judged by the Python decoder; arbitrary text for `include str`, arbitrary bytes for b64 / b64urlsafe; unknown include types. Non-trivial: a nested container, a non-ASCII or escaped string, an integer beyond 2^53, a corrupted variant, or (raw) empty / non-UTF-8 / non-multiple-of-3 input; distinct by (type, file bytes).".into()
     }
     fn assumptions(&self) -> Vec<String> {
         vec![
